@@ -140,8 +140,8 @@ class AsyncioBcpClientSocket():
         while True:
             message = await self._receiver.readline()
 
-            # handle EOF
-            if not message:
+            # handle EOF. a line without newline was cut off by the disconnect
+            if not message.endswith(b'\n'):
                 raise BrokenPipeError()
 
             # strip newline
@@ -151,7 +151,11 @@ class AsyncioBcpClientSocket():
                 message, bytes_needed = message.split(BYTE_MARKER)
                 bytes_needed = int(bytes_needed)
 
-                raw_bytes = await self._receiver.readexactly(bytes_needed)
+                try:
+                    raw_bytes = await self._receiver.readexactly(bytes_needed)
+                except asyncio.IncompleteReadError as e:
+                    # disconnect in the middle of the payload
+                    raise BrokenPipeError() from e
 
                 message_obj = self._process_command(message, raw_bytes)
 
@@ -298,8 +302,8 @@ class BCPClientSocket(BaseBcpClient):
         while True:
             message = await self._receiver.readline()
 
-            # handle EOF
-            if not message:
+            # handle EOF. a line without newline was cut off by the disconnect
+            if not message.endswith(b'\n'):
                 raise BrokenPipeError()
 
             # strip newline
@@ -309,7 +313,11 @@ class BCPClientSocket(BaseBcpClient):
                 message, bytes_needed = message.split(b'&bytes=')
                 bytes_needed = int(bytes_needed)
 
-                rawbytes = await self._receiver.readexactly(bytes_needed)
+                try:
+                    rawbytes = await self._receiver.readexactly(bytes_needed)
+                except asyncio.IncompleteReadError as e:
+                    # disconnect in the middle of the payload
+                    raise BrokenPipeError() from e
 
                 message_obj = self._process_command(message, rawbytes)
 
